@@ -266,6 +266,57 @@ func checkC06(c *Check) {
 		chk("verifier", is(single(m.RedirStateLit["CodeVerifier"]), m.GenVerifier))
 		chk("session id", is(m.RedirCookie.Common().Args[1], m.GenSID))
 	}
+	// the identifiers leave the redirect only through the session cookie, the store and the authorization URL:
+	// none of them is kept in a container that outlives the check (a map from state or request id to session id
+	// would let a public value select a session id), and the callback takes its session id from the cookie only
+	if m.GenSID != nil {
+		gens := map[ssa.Value]string{}
+		for _, g := range []*ssa.Call{m.GenSID, m.GenState, m.GenNonce, m.GenVerifier} {
+			if g != nil {
+				gens[g] = g.Common().Method.Name()
+			}
+		}
+		nEsc := 0
+		for _, hf := range R.HandlerFuncs {
+			for _, b := range hf.Blocks {
+				for _, ins := range b.Instrs {
+					var vals []ssa.Value
+					what := ""
+					switch x := ins.(type) {
+					case *ssa.MapUpdate:
+						if cl, _ := classOfMap(x.Map); strings.HasPrefix(cl, "global:") || strings.Contains(cl, "[]") {
+							vals, what = []ssa.Value{x.Key, x.Value}, "a long-lived map ("+cl+")"
+						}
+					case ssa.CallInstruction:
+						id := funcID(calleeOf(x).Obj)
+						if strings.HasPrefix(id, "sync.Map.") && (strings.HasSuffix(id, ".Store") || strings.HasSuffix(id, ".LoadOrStore") || strings.HasSuffix(id, ".Swap") || strings.HasSuffix(id, ".CompareAndSwap")) {
+							vals, what = x.Common().Args[1:], "a sync.Map"
+						}
+					case *ssa.Store:
+						if _, isG := x.Addr.(*ssa.Global); isG {
+							vals, what = []ssa.Value{x.Val}, "a package-level variable"
+						}
+					}
+					for _, v := range vals {
+						for d := range dataDeps(v) {
+							if gname, isGen := gens[d]; isGen {
+								nEsc++
+								c.Fail("C06.R3", fmt.Sprintf("identifier-kept/%s/%s#%d", fnKey(hf), gname, nEsc), P.Pos(instrPos(ins)),
+									"the result of "+gname+" is kept in "+what+" in "+fnKey(hf)+": identifiers of one login become reachable from values other than the session cookie (or are handed out again)")
+							}
+						}
+					}
+				}
+			}
+		}
+		if nEsc == 0 {
+			c.Pass("C06.R3", "identifiers-not-kept", P.Pos(R.Redirect.Pos()), "no generator result is stored into a long-lived map, sync.Map or package-level variable")
+		}
+		if R.Callback != nil && m.CbSID != nil {
+			okSID, whySID := sidFromCookieAtAllCallers(P, R, R.Callback, m.CbSID)
+			c.Obl(okSID, "C06.R3", "callback-id-is-cookie", P.Pos(R.Callback.Pos()), "the callback's session id is the one presented in the cookie", "the callback can run under a session id that does not come from the cookie ("+whySID+"): a public value (state) selects the session")
+		}
+	}
 	if c.Tier == "thorough" && P.Whole {
 		// follow oauth2.GenerateVerifier into the dependency
 		c.extra["verifier_followed_into_dependency"] = true
